@@ -106,6 +106,12 @@ Definition dotv (a b : list Q) : Q := Qsum (map (fun p => fst p * snd p) (combin
 Definition projected (vl vr : list Q) (c : corr) : corr :=
   map (option_map (fun m => [[dotv vl (map (fun row => dotv row vr) m)]])) c.
 
+(* projected with one vector pair per timeslice (entries may be None): undefined where the slice or either vector is undefined *)
+Definition projected_l (vls vrs : list (option (list Q))) (c : corr) : corr :=
+  map (fun x => match fst x, fst (snd x), snd (snd x) with
+                | Some m, Some l, Some r => Some [[dotv l (map (fun row => dotv row r) m)]]
+                | _, _, _ => None end) (combine c (combine vls vrs)).
+
 (* Hankel(N, periodic): H_t[i][j] = c[t+i+j] (index mod T when periodic); non-periodic: undefined when t+2(N-1) >= T;
    undefined when a referenced timeslice is undefined *)
 Definition entry0 (s : slice) : option Q := match s with Some [[x]] => Some x | _ => None end.
@@ -233,6 +239,7 @@ Inductive cop :=
 | OpRoll (dt : Z) | OpReverse | OpThin (spacing offset : Z)
 | OpSym | OpAntiSym | OpTSym (partner : corr) (parity : Q)
 | OpItem (i j : nat) | OpTrace | OpMatSym | OpProjected (vl vr : list Q)
+| OpProjectedL (vls vrs : list (option (list Q)))
 | OpHankel (N : nat) (periodic : bool).
 
 Definition eop_of (f : nat) : eop := match f with 0%nat => e_add | 1%nat => e_sub | 2%nat => e_mul | _ => e_div end.
@@ -259,6 +266,8 @@ Definition run_op (a : corr) (o : cop) : cres :=
   | OpTrace => COk (trace a)
   | OpMatSym => COk (matrix_symmetric a)
   | OpProjected vl vr => COk (projected vl vr a)
+  | OpProjectedL vls vrs => if Nat.eqb (List.length vls) (List.length a) && Nat.eqb (List.length vrs) (List.length a)
+                            then COk (projected_l vls vrs a) else CUndefined
   | OpHankel N per => hankel N per a
   end.
 
@@ -284,6 +293,12 @@ Definition spec_at (a : corr) (o : cop) (t : nat) : slice :=
   | OpTrace => option_map (fun m => [[mtrace m]]) (snth a t)
   | OpMatSym => option_map (fun m => map (fun i => map (fun j => Qred ((1 # 2) * (nth j (nth i m []) 0 + nth i (nth j m []) 0))) (seq 0 (List.length m))) (seq 0 (List.length m))) (snth a t)
   | OpProjected vl vr => option_map (fun m => [[dotv vl (map (fun row => dotv row vr) m)]]) (snth a t)
+  | OpProjectedL vls vrs =>      (* sum_i sum_j l_i C_ij(t) r_j with the vectors of this timeslice *)
+      match snth a t, nth t vls None, nth t vrs None with
+      | Some m, Some l, Some r =>
+          Some [[Qsum (map (fun i => Qsum (map (fun j => nth i l 0 * nth j (nth i m []) 0 * nth j r 0) (seq 0 (List.length m)))) (seq 0 (List.length m)))]]
+      | _, _, _ => None
+      end
   | OpHankel N per =>
       if negb per && Nat.ltb 1 N && Nat.leb T (t + 2 * (N - 1)) then None
       else match opt_all (map (fun i => opt_all (map (fun j => entry0 (snth a (if per then (t + i + j) mod T else t + i + j))) (seq 0 N))) (seq 0 N)) with
